@@ -23,6 +23,13 @@ def gen_configs(chk, kind, count):
                                  imputer_kind="joint", loss_kind="arbitrary", lbb=(d == 2)))
     for cfg in grid[:count]:
         yield cfg
+    # the documented default construction (storage=None, imputer=None) in both modes
+    for dynamic in (True, False):
+        yield dict(kind=kind, d=2, dynamic=dynamic, alpha=None, n_inner=1, model_kind="scalar", names_kind="str", storage_kind="geom",
+                   storage_size=100, imputer_kind="joint", loss_kind="arbitrary", lbb=False, default_ctor=True)
+    # a model whose label set grows and whose normalised mean prediction can have a zero sum
+    yield dict(kind=kind, d=2, dynamic=False, alpha=Q(1, 2), n_inner=2, model_kind="grow", names_kind="mixed", storage_kind="geom",
+               storage_size=2, imputer_kind="joint", loss_kind="arbitrary", lbb=False)
     for _ in range(max(0, count - len(grid))):
         sk, ss = rng.choice(STORAGES)
         yield dict(kind=kind, d=rng.randint(1, 4), dynamic=rng.random() < 0.6, alpha=rng.choice(ALPHAS),
@@ -60,15 +67,25 @@ def run_stream(chk, cfg, nsteps, perms=None, faults=0):
     return rig
 
 
+def exact_comparable(rig):
+    """the documented default alpha 0.001 is a binary float: `1 - alpha` is then rounded by the interpreter, so the run is not in
+    exact arithmetic and is compared with the property oracles only (not with the exact model)"""
+    a = getattr(rig.ex, "_smoothing_alpha", None)
+    return not (rig.dynamic and isinstance(a, float))
+
+
 def model_answers(rigs):
-    """one driver process for many rigs; returns list of answers (or raises)"""
-    reqs = [r.pure_request() for r in rigs]
-    return core.run_driver(reqs)
+    """one driver process for many rigs; returns list of answers (or raises); rigs that did not run in exact arithmetic get a stub"""
+    reqs = [r.pure_request() for r in rigs if exact_comparable(r)]
+    ans = iter(core.run_driver(reqs))
+    return [next(ans) if exact_comparable(r) else {"skipped": True, "steps": []} for r in rigs]
 
 
 def compare(rig, ans, observables):
     """per step, the first difference between implementation and model on the named observables"""
     diffs = []
+    if ans.get("skipped"):
+        return []
     if "error" in ans:
         return [(-1, "driver", ans["error"], None)]
     ok_steps = [(t, rec) for t, rec in enumerate(rig.steps) if rec["error"] is None]
